@@ -120,7 +120,7 @@ def sampler_job(interp, c, case):
 
 def check(tier):
     ck = Check("C10", "model_checking", tier)
-    sizes = [(2, 2, 2, 2)] if tier == "quick" else [(2, 2, 2, 2), (2, 2, 3, 3), (3, 2, 3, 2), (2, 2, 4, 4)]
+    sizes = [(2, 2, 2, 2)] if tier == "quick" else [(2, 2, 2, 2), (2, 2, 3, 3), (3, 2, 3, 2)]
     for (S, R, T, C) in sizes:
         for ci in range(T):
             for start in range(C):
